@@ -231,6 +231,11 @@ func (op *Operation) Closest() *k_nearest_nodes.Type {
 
 func (op *Operation) startQuery() {
 	a := op.popClosestUnqueried()
+	if _, ok := op.queried[addrString(a.Addr.String())]; ok {
+		// The same address was queued under several IDs (or with and without one) and has been
+		// queried since it was added.
+		return
+	}
 	op.markQueried(a.Addr)
 	op.outstanding++
 	go func() {
